@@ -3,5 +3,5 @@ CONSTANTS
   Dev = {}
   NSamp = 3
   EmitReplay = TRUE
-INVARIANTS EntriesAreSites Emit
+INVARIANTS EntriesAreSites Traversal
 CHECK_DEADLOCK FALSE
